@@ -74,6 +74,8 @@ func runC15(t *testing.T, sc *world.Scenario) *check.Result {
 	stored := false // both kinds of data measured and stored by an earlier incarnation, not discarded since
 	levels := 256/f.Driver.K + 1
 	fixedWaits := 2*time.Second + 2*sc.TempPoll.D() + time.Second
+	hr := kernel.NewRand(sc.Seed, "c15.hold")
+	holdMs := 0
 	for step, op := range strings.Split(sc.Notes, ",") {
 		isc := sc.Clone()
 		var args []string
@@ -82,6 +84,12 @@ func runC15(t *testing.T, sc *world.Scenario) *check.Result {
 			// long enough for a complete analysis, then SIGTERM
 			isc.Env = []world.EnvEvent{{Kind: "signal", At: sec(float64(levels)*1.1 + 45), Value: 15}}
 			isc.Horizon = sec(float64(levels)*1.1 + 110)
+			holdMs = 0
+			if stored && hr.Bool(0.4) {
+				// while this incarnation starts, another process holds the database lock for a few seconds
+				holdMs = hr.Range(1500, 20000)
+				isc.Env = append(isc.Env, world.EnvEvent{Kind: "db.hold", At: sec(1.2 + hr.Float()*1.6), Value: holdMs})
+			}
 		case "reset":
 			args = []string{"fan", "reset", "--id", f.ID}
 			isc.Horizon = sec(30)
@@ -147,7 +155,10 @@ func runC15(t *testing.T, sc *world.Scenario) *check.Result {
 					res.Violate("C15", "stored-curve-reused", "stored-curve-reused "+sig, 0, nil,
 						"step %d (start): the RPM curve was measured and stored before, yet %d measurement writes were issued", step, measure)
 				}
-				if sweep < 8 && measure < 3 && firstTick > fixedWaits+5*time.Second {
+				if holdMs > 0 {
+					res.Probe("restart-while-database-busy")
+				}
+				if sweep < 8 && measure < 3 && firstTick > fixedWaits+5*time.Second+time.Duration(holdMs)*time.Millisecond {
 					res.Violate("C15", "straight-to-regulation", "straight-to-regulation "+sig, 0, nil, "step %d (start): first control cycle only after %s (fixed waits %s)", step, firstTick, fixedWaits)
 				}
 			} else {
